@@ -104,13 +104,29 @@ def through_the_key_keeper(chk, binp):
             stack.close()
 
 
-def tag_replaced_by_rename_only(chk, binp):
+def other_filesystem_dir():
+    """a scratch directory on a filesystem other than the one the agent's folders live on (so that a rename between the two fails)"""
+    import vlib as _v
+    here = os.stat(_v.scratch_dir("c16probe")).st_dev
+    for base in ("/dev/shm", "/run", "/tmp"):
+        try:
+            if os.path.isdir(base) and os.stat(base).st_dev != here and os.access(base, os.W_OK):
+                d = os.path.join(base, "verif-c16-%d" % os.getpid())
+                os.makedirs(d, exist_ok=True)
+                return d
+        except OSError:
+            continue
+    return None
+
+
+def tag_replaced_by_rename_only(chk, binp, tmpdir=None):
     """syscall trace of the file operations on status.tag while it is published several times: once it exists, the final name may
     only be the target of a rename (an unlink, or opening it for writing, opens a window in which a reader finds it missing or partial)"""
     import vlib as _v
     sd = _v.scratch_dir("c16s")
     log = os.path.join(sd, "strace.txt")
-    stack = e2e.Stack(binp, wrapper=["strace", "-f", "-o", log, "-e", "trace=unlink,unlinkat,rename,renameat,renameat2,openat,open,creat,truncate,ftruncate"])
+    stack = e2e.Stack(binp, wrapper=["strace", "-f", "-o", log, "-e", "trace=unlink,unlinkat,rename,renameat,renameat2,openat,open,creat,truncate,ftruncate"],
+                      tmpdir=tmpdir)
     try:
         tag = os.path.join(stack.sd, "keys", "status.tag")
         for step in ("timeup", "reset", "timeup", "ready r", "ready k", "ready l", "reset", "timeup", "timeup"):
@@ -143,15 +159,84 @@ def tag_replaced_by_rename_only(chk, binp):
         return
     finally:
         shutil.rmtree(sd, ignore_errors=True)
-    chk.case(nontrivial_key=("tag-syscalls", tuple(ops)))
+    chk.case(nontrivial_key=("tag-syscalls", tmpdir is not None, tuple(ops)))
+    if tmpdir is not None:
+        chk.count("tag_syscalls_with_temp_dir_on_another_filesystem")
     chk.count("tag_syscalls", len(ops))
     chk.count("tag_renames", ops.count("rename-to"))
     bad = [o for o in ops if o in ("unlink", "open-write", "rename-from", "creat", "truncate")]
     if not published or ops.count("rename-to") < 2:
         chk.broken.append({"kind": "gate", "name": "status.tag syscall stage", "why": "tag not published at least twice: %r" % ops})
     elif bad:
-        chk.violation("status.tag was modified in place / removed instead of being replaced by one rename", {"file_operations_on_status.tag": ops},
+        chk.violation("status.tag was modified in place / removed instead of being replaced by one rename",
+                      {"file_operations_on_status.tag": ops, "temp_dir": tmpdir or "(inside the agent's scratch folder)"},
                       expected="rename-to only", observed=bad, finding_key="tag-not-atomic")
+
+
+def temp_file_write_fails(chk, binp):
+    """the temp file of status.tag cannot be written (its name leads to a device that is full): the published file stays what it
+    was - complete - and is not replaced by what little was written"""
+    stack = e2e.Stack(binp)
+    try:
+        keys = os.path.join(stack.sd, "keys")
+        tag = os.path.join(keys, "status.tag")
+        tmp = os.path.join(keys, "status.tag.tmp")
+        stack.ctl("prov call timeup")          # not everything is ready: a non-empty text is published
+        time.sleep(0.05)
+        try:
+            before = open(tag, "rb").read()
+        except OSError:
+            before = None
+        if not before or not tag_ok(before):
+            chk.disagreement("status-tag", {"stage": "temp file write fails"}, "a complete non-empty status.tag after the deadline", repr(before)[:120])
+            return
+        try:
+            if os.path.lexists(tmp):
+                os.remove(tmp)
+            os.symlink("/dev/full", tmp)
+        except OSError as e:
+            chk.notes.append("temp-file-write-fails stage skipped: %s" % e)
+            return
+        stack.ctl("prov call reset")
+        stack.ctl("prov call timeup")          # publishes again: writing the temp file fails with ENOSPC
+        time.sleep(0.05)
+        is_link = os.path.islink(tag)
+        after = None if is_link else open(tag, "rb").read()
+        for pth in (tmp, tag):
+            if os.path.islink(pth):
+                os.remove(pth)
+        chk.case(nontrivial_key=("tag-temp-write-fails", is_link, after == before))
+        chk.count("tag_temp_file_write_failures")
+        if is_link or after is None or not tag_ok(after) or not after:
+            chk.violation("status.tag was modified in place / removed instead of being replaced by one rename",
+                          {"situation": "writing status.tag.tmp fails (no space left on device)", "status.tag_before": before[:80].decode("latin-1"),
+                           "status.tag_after": "replaced by the unwritten temp file" if is_link else repr(after)[:80]},
+                          expected="the previous complete content stays", observed="replaced")
+    finally:
+        stack.close()
+
+
+def state_actor_gone(chk, binp):
+    """the task that answers "what is the channel state" has died (its channel is closed): a /provision query gets no answer from
+    it - which is not an answer that says latched"""
+    stack = e2e.Stack(binp)
+    try:
+        before = query(stack, None)
+        stack.ctl("actorkill key_keeper")
+        stack.ctl("keyinfo")                   # a message for the actor: it dies handling it
+        time.sleep(0.1)
+        stack.ctl("khook off")
+        answers = [query(stack, t) for t in (None, 0, 1)]
+        chk.case(nontrivial_key=("state-actor-gone", tuple(a and a.get("finished") for a in answers)))
+        chk.count("queries_with_the_state_actor_gone", len(answers))
+        d = {"situation": "nothing reported ready, no deadline passed, the key keeper's state actor has died", "answer_before": before, "answers": answers}
+        if before is None or before.get("finished"):
+            chk.disagreement("provision-query", d, "finished=false on a fresh agent", str(before))
+        elif any(a is not None and a.get("finished") for a in answers):
+            chk.violation("provisioning reported finished although neither all three subsystems reported ready nor the deadline "
+                          "passed at or after the instant the query names, and the channel is not latched", d, expected="finished=false", observed="finished=true")
+    finally:
+        stack.close()
 
 
 def run(chk):
@@ -180,10 +265,29 @@ def run(chk):
             live = []                 # model task indices are positional: we always run tasks to completion here
             nops = rng.rand_range(6, 25)
             desc = []
+            saved_tick = None         # an instant noted right after the last deadline (for a query that names it later)
+            # every third history starts with: deadline passes, a subsystem reports afterwards, a query names an instant in between
+            script = ([("timeup", None), ("ready", rng.pick(["k", "r"])), ("earlier", None), ("ready", rng.pick(["k", "r", "l"])), ("earlier", None)]
+                      if h % 3 == 0 else [])
             for j in range(nops):
-                op = rng.pick(["ready", "ready", "ready", "reset", "timeup", "query", "query", "query", "chan", "msgs"])
+                op = rng.pick(["ready", "ready", "ready", "reset", "timeup", "query", "query", "query", "chan", "msgs", "earlier"])
+                forced = None
+                if script:
+                    op, forced = script.pop(0)
+                if op == "earlier" and saved_tick is None:
+                    op = "query"
+                if op == "earlier":
+                    # a query naming an instant shortly after the last deadline, asked now (other reports may have come in since)
+                    latched = [s for s in steps if s[0] == "chan"]
+                    lat = bool(latched) and latched[-1][1] not in ("disabled", "Unknown")
+                    state_before = stack.ctl("prov msg getstate")
+                    ans = query(stack, saved_tick)
+                    steps.append(("queryO", lat, ans, state_before, cur_stamp, saved_tick))
+                    chk.count("query_instant_after_deadline")
+                    desc.append("query naming an instant after the last deadline")
+                    continue
                 if op == "ready":
-                    f = rng.pick(["r", "k", "l"])
+                    f = forced or rng.pick(["r", "k", "l"])
                     stack.ctl("prov trace")
                     stack.ctl(f"prov call ready {f}")
                     tr = stack.ctl("prov trace").split(",")
@@ -216,6 +320,9 @@ def run(chk):
                     m += ["prov spawn timeup", "prov run 0", "prov run 0"]
                     if before != "rkl.":
                         cur_stamp = int(stack.ctl("now"))
+                    time.sleep(0.002)
+                    saved_tick = int(stack.ctl("now"))
+                    time.sleep(0.002)
                     desc.append("timeup")
                 elif op == "chan":
                     state = rng.pick(["disabled", "Unknown", "wireserver", "wireserverandimds", "disabled"])
@@ -287,6 +394,16 @@ def run(chk):
                     if not mo.startswith(want + " "):
                         # the model line after a finished query task was removed may be the 'run' that removed it: search backwards
                         chk.disagreement("provision-state", {"history": desc}, mo[:60], want)
+                elif s_[0] == "queryO":
+                    _, lat, ans, state_before, stamp, tick = s_
+                    d = {"history": desc, "query": "names an instant shortly after the last deadline", "latched": lat, "answer": ans,
+                         "state_before": state_before}
+                    if ans is None:
+                        chk.disagreement("provision-query", d, "an answer", "none")
+                    elif ans["finished"] and not (lat or (stamp is not None and stamp >= tick)):
+                        chk.violation("provisioning reported finished although neither all three subsystems reported ready nor the deadline "
+                                      "passed at or after the instant the query names, and the channel is not latched", d,
+                                      expected="finished=false", observed="finished=true")
                 elif s_[0] == "query":
                     _, kind, lat, ans, idx, state_before, stamp, tick = s_
                     chk.count("query_" + kind)
@@ -317,6 +434,18 @@ def run(chk):
             stack.close()
     placed_report_during_query(chk, binp)
     tag_replaced_by_rename_only(chk, binp)
+    # the same with the process's temp directory on another filesystem than its folders (the atomic replacement must not depend on
+    # where the temp directory happens to be)
+    temp_file_write_fails(chk, binp)
+    state_actor_gone(chk, binp)
+    od = other_filesystem_dir()
+    if od:
+        try:
+            tag_replaced_by_rename_only(chk, binp, tmpdir=od)
+        finally:
+            shutil.rmtree(od, ignore_errors=True)
+    else:
+        chk.notes.append("no second filesystem available: temp-dir-elsewhere variant of the status.tag stage not run")
     through_the_key_keeper(chk, binp)
     chk.coverage["rule"] = ("histories of 6-25 operations on the real actor/listener: the real readiness functions, reset, deadline handler "
                             "(each checked against the model program through the H3 message trace), raw message-level interleavings of a "
